@@ -8,7 +8,7 @@ import json
 class Facts:
     def __init__(self, doc):
         from .normalize import (canonicalize_generics, transparent_helpers, canonical_apis, expand_combinators, eliminate_try,
-                                thread_known_discriminants, expand_int_try_from, expand_for_each, pinned_field_names, expand_result_ok, expand_find_map, pinned_adt_paths, expand_closure_calls, expand_array_try_from)
+                                thread_known_discriminants, expand_int_try_from, expand_for_each, pinned_field_names, expand_result_ok, expand_find_map, pinned_adt_paths, expand_closure_calls, expand_array_try_from, drop_dead_closures)
         doc = canonicalize_generics(doc)
         doc = pinned_adt_paths(doc)
         doc = pinned_field_names(doc)
@@ -23,6 +23,7 @@ class Facts:
         doc = expand_combinators(doc)
         doc = eliminate_try(doc)
         doc = thread_known_discriminants(doc)
+        doc = drop_dead_closures(doc)
         self.doc = doc
         self.meta = doc['meta']
         self.bodies = {}
@@ -116,6 +117,14 @@ class Body:
         return d.get('name')
 
     def local_ty(self, l):
+        """type of a local; a `Zeroizing<T>` holds a T and derefs to it (it only adds a wipe on drop): the value analysis treats
+        `Zeroizing::new(x)` as x, so the local's type is reported as T (local_ty_raw gives the spelled type)"""
+        ty = self.locals[l]['ty']
+        while ty.startswith('zeroize::Zeroizing<') and ty.endswith('>'):
+            ty = ty[len('zeroize::Zeroizing<'):-1]
+        return ty
+
+    def local_ty_raw(self, l):
         return self.locals[l]['ty']
 
     def where(self, bi=None, line=None):
